@@ -17,6 +17,7 @@
 //	  fail=0|1          (first) the handshake fails: wrong server name
 //	  closeafter=<k> closers=<n>   (close) n goroutines call Close once k Writes have returned
 //	  slen=<n> rbufs=<b.b.b>       (read) one stream of n bytes, one reader goroutine per buffer size
+//	  scen=hsclose hs=<n> closeafter=<k>   Close on the client after k yields, racing with the first handshake
 //
 // Payload bytes are a fixed function of (writer, call, index) that the Lean oracle recomputes;
 // the peer's stream is reported in hex and judged by the verified checker.
@@ -1031,6 +1032,18 @@ func gen(o hx.Opts) []string {
 		add(spec{stack: st, scen: "read", procs: 4, seed: 7, yield: 40, slen: 30000, rbufs: []int{64, 1000, 4096}})
 	}
 	add(spec{stack: "dtlcp", scen: "dgram", procs: 4, seed: 8, yield: 40, cw: [][]int{{1, 1200, 30, 30}, {500, 500, 500}, {64}}, rbufs: []int{2048, 2048}})
+	// Close racing with the first handshake (F46): sweep the moment of Close across the handshake
+	sweeps := 1
+	if o.Tier == "thorough" {
+		sweeps = 6
+	}
+	for rep := 0; rep < sweeps*o.Scale; rep++ {
+		for _, st := range []string{"tlcp", "dtlcp"} {
+			for k := 0; k < 300; k += 4 {
+				add(spec{stack: st, scen: "hsclose", procs: []int{4, 2, 8}[rep%3], seed: uint64(rep*1000 + k), yield: []int{0, 20}[rep%2], hs: 2, closeAfter: k})
+			}
+		}
+	}
 	rounds := 3
 	if o.Tier == "thorough" {
 		rounds = 40
